@@ -1,6 +1,7 @@
 import CkbVerif.Model.SchedBook
 import CkbVerif.Lemmas.SchedBook
 import CkbVerif.Model.CyclesAttr
+import CkbVerif.Model.SchedTx
 import CkbVerif.Props.C05
 
 /-!
@@ -20,6 +21,8 @@ C05 — the scheduler layer: theorems about the bookkeeping model of `script/src
   `iterateOuter_ok_budget`: the order of `iterate_outer` as coded — every charged cycle reaches
   `total_cycles` on every path, and a charge beyond the limit returns `CyclesExceeded` BEFORE
   `process_io` with `iteration_cycles` left set.
+* `process_io_post_partial`: `process_io` touches no counter / fd / terminated VM and only ever writes
+  `Runnable` / `WaitForWrite` states (partial: the full "no servable IO left" post-condition is observed).
 * `checked_sub_before_process_io_deadlocks` (finding F20 as an exact negation witness of the model):
   an uninterrupted run that succeeds, and the same run cut at a limit that the yield charge of a
   `read` oversteps: the suspended state holds a servable read/write pair, no VM is runnable, the
@@ -252,6 +255,40 @@ theorem iterateOuter_ok_budget (ev : Ev) (limit : Nat) (s s' : Sch) (rem : Nat)
           omega
   · cases h
 
+/-- **process_io_post_partial.** what `process_io` can do to the scheduler, for EVERY state: it never
+touches booked cycles, id counters, fds and their owners, inherited fds, terminated VMs; the only
+states it writes are `Runnable` and `WaitForWrite`; hence every VM that waits for a read, or for a
+child, afterwards was waiting for exactly that before (`process_io` never blocks a VM and never
+re-targets a wait).
+Partial: the full post-condition "no servable IO is left" (no waiter on a closed end, no matching
+read/write pair) additionally needs the key-uniqueness of `states` and the fd-ownership of waiters as
+invariants; it is observed (every `process_io` scan and transfer is compared with the model, a
+suspended state with servable IO only occurs after the early return of `iterate_outer`), not proved. -/
+theorem process_io_post_partial (s t : Sch) (h : processIo s = .ok t) :
+    t.total = s.total ∧ t.nextVm = s.nextVm ∧ t.nextFd = s.nextFd ∧ t.fds = s.fds ∧
+    t.inherited = s.inherited ∧ t.term = s.term ∧
+    (∀ p ∈ t.states, p ∈ s.states ∨ p.2 = .runnable ∨ ∃ fd c len, p.2 = .waitWrite fd c len) ∧
+    (∀ vm fd len, (vm, VmState.waitRead fd len) ∈ t.states → (vm, VmState.waitRead fd len) ∈ s.states) ∧
+    (∀ vm tgt, (vm, VmState.wait tgt) ∈ t.states → (vm, VmState.wait tgt) ∈ s.states) := by
+  obtain ⟨h1, h2, h3, h4, h5, h6, h7⟩ := processIo_ioStep s t h
+  refine ⟨h1, h2, h3, h4, h5, h6, h7, ?_, ?_⟩
+  · intro vm fd len hp
+    rcases h7 _ hp with e | e | ⟨_, _, _, e⟩
+    · exact e
+    · cases e
+    · cases e
+  · intro vm tgt hp
+    rcases h7 _ hp with e | e | ⟨_, _, _, e⟩
+    · exact e
+    · cases e
+    · cases e
+
+-- a reader and a writer on one pipe, the writer has 20 bytes, the reader takes 10: the reader runs
+-- again, the writer keeps waiting with 10 bytes consumed, and nothing servable is left
+example : (processIo { states := [(0, .waitWrite 3 0 20), (1, .waitRead 2 10)], fds := [(2, 1), (3, 0)],
+                       inst := [0, 1] }).toOption.map (fun t => (t.states, servableIo t)) =
+    some ([(0, .waitWrite 3 10 20), (1, .runnable)], false) := by decide
+
 /-! ### negation witnesses on the model of the code as written -/
 
 /-- root creates a pipe and spawns a child with the write end; the child writes 10 bytes (blocks),
@@ -478,5 +515,58 @@ example : verifyG [⟨[3, 4], 0⟩, ⟨[1], 0⟩, ⟨[5], 7⟩] 13 = .error (.va
     verifyG [⟨[3, 4], 0⟩, ⟨[2], 0⟩, ⟨[5], 7⟩] 8 = .error (.exceeded 1, 1) ∧
     failIdx [⟨[3, 4], 0⟩, ⟨[1], 0⟩, ⟨[5], 7⟩] = 2 ∧ shortIdx [⟨[3, 4], 0⟩, ⟨[2], 0⟩, ⟨[5], 7⟩] 8 = 1 :=
   ⟨rfl, rfl, rfl, rfl, rfl⟩
+
+end CkbVerif.C05
+
+/-! ### the transaction-level loop over scheduler instances (`Model/SchedTx.lean`) -/
+
+namespace CkbVerif.C05
+open CkbVerif.SchedBook CkbVerif.SchedTx
+
+/-- **tx_suspension_within_call_limit.** whatever the groups do: when the loop over the script groups
+(`resumable_verify`, or the tail of `resume_from_state`) returns `Suspended`, the suspended group is
+one of the groups of the transaction, and the limit recorded in the `TransactionState` — the budget
+that was handed to that group's scheduler — is at most the limit of the call -/
+theorem tx_suspension_within_call_limit (limit : Nat) (gs : List GKind) :
+    ∀ (idx used cycles : Nat) (evs : List Ev) (log : List Out) (st : TxSt) (evs' : List Ev) (log' : List Out),
+      txLoop limit gs idx used cycles evs log = (.suspended st, evs', log') →
+      st.limitCycles ≤ limit ∧ idx ≤ st.current ∧ st.current < idx + gs.length := by
+  induction gs with
+  | nil => intro idx used cycles evs log st evs' log' h; simp [txLoop] at h
+  | cons k rest ih =>
+    intro idx used cycles evs log st evs' log' h
+    unfold txLoop at h
+    by_cases hl : limit < used
+    · simp [hl] at h
+    · simp only [hl, if_false] at h
+      rcases hc : chunkRunS k evs (limit - used) none log with ⟨r, e1, l1⟩
+      rw [hc] at h
+      cases r with
+      | completed u c =>
+        simp only at h
+        cases ha : addU64 used c with
+        | none => rw [ha] at h; simp at h
+        | some used' =>
+          cases hb : addU64 cycles u with
+          | none => rw [ha, hb] at h; simp at h
+          | some cycles' =>
+            rw [ha, hb] at h
+            obtain ⟨h1, h2, h3⟩ := ih (idx + 1) used' cycles' e1 l1 st evs' log' h
+            simp only [List.length_cons]
+            exact ⟨h1, by omega, by omega⟩
+      | suspended f =>
+        simp only [Prod.mk.injEq, TxEnd.suspended.injEq] at h
+        obtain ⟨hs, _, _⟩ := h
+        subst hs
+        simp only [List.length_cons]
+        exact ⟨by omega, by omega, by omega⟩
+      | failed c => simp at h
+      | stopped e => simp at h
+      | mismatch r => simp at h
+
+-- a lock group of 700 cycles followed by the TYPE_ID system script: a call with 1000 cycles completes the
+-- lock group and suspends in the system script with 300 cycles handed on; no scheduler state is kept
+example : (resumableVerify [.vm, .tid 0] 1000 [⟨0, 700, .exit 0, []⟩] []).1 = .suspended ⟨1, none, 700, 300⟩ := by
+  decide +kernel
 
 end CkbVerif.C05
